@@ -1,4 +1,5 @@
 import BoltonsVerif.C06.Scalar
+import BoltonsVerif.C06.Sharing
 /-
 C06 — property theorems for the URL quoting / parsing / rendering model.
 
@@ -646,5 +647,51 @@ example : portUnderscore = false → (parsePort [49, 95, 48]).toOption = none :=
 /-- the loop of `find_all_links` never raises, whatever the regular expression matched -/
 theorem find_all_links_total (env : Env) (o : LinkOpts) (ms : List (Text × Text)) (tail : Text) :
     ∃ r, findAllLinks env o ms tail = .ok r := findAllLinks_ok env o ms tail
+
+/-! ## several URL objects alive at once: every derivation copies, edits stay local
+
+The theorems above treat URL objects as independent values.  `Sharing.lean` models what the interpreter really
+has - objects that REFER to mutable query dictionaries - and these theorems say why the value view is sound: every way
+the code makes a URL object out of another one (`URL(url)`, `URL.from_parts(query_params=other.query_params)`,
+`url.navigate(ref)`) puts the parameters into a dictionary of its own.  That is a fact about the current source: the
+three flags are regenerated on every run by exercising it (make the derived object, edit either side, look at the
+other). -/
+
+/-- `URL(url)`, `URL.from_parts(query_params=<another URL's query_params>)` and `url.navigate(ref)` all copy the
+    query parameters (flags regenerated from the source) -/
+theorem derivation_edges_copy : ∀ e : Edge, e.copies = true := edges_all_copy
+
+/-- after ANY history of constructions, derivations and in-place edits no two live URL objects refer to the same
+    query dictionary -/
+theorem objects_unshared (ops : List Op) : (Store.run ops).Unshared := run_unshared ops
+
+/-- ... hence text placed in the query of one URL object never shows in another one: an in-place edit of object `i`
+    leaves what every other object `j` reads (and renders) unchanged -/
+theorem edit_stays_local (ops : List Op) (i j : Nat) (kv : Param) (hij : i ≠ j) :
+    ((Store.run ops).qadd i kv).query j = (Store.run ops).query j :=
+  Store.qadd_local _ i j kv (run_unshared ops) hij
+
+/-- ... while the edited object itself reads the new pair at the end of its parameters -/
+theorem edit_takes_effect (ops : List Op) (i q : Nat) (kv : Param) (hq : (Store.run ops).objs[i]? = some q) :
+    ((Store.run ops).qadd i kv).query i = (Store.run ops).query i ++ [kv] :=
+  Store.qadd_self _ i kv q hq
+
+/-- the derived object starts with the parameters of the object it was made from, whichever way the edge works -/
+theorem derived_takes_over (copies : Bool) (s : Store) (j : Nat) (hj : j < s.objs.length) :
+    (s.derive copies j).query s.objs.length = s.query j := Store.derive_takes_over copies s j hj
+
+/-- why the copy is needed: an edge that installed the SAME dictionary would let an edit of the derived object show
+    in the base (this is what the flags exclude) -/
+theorem shared_dictionary_leaks (kv : Param) :
+    ((((Store.empty.fresh []).derive false 0).qadd 1 kv).query 0) = [kv] := Store.shared_leaks kv
+
+/- base `?k=v`; a URL navigated from it, one made by from_parts from its query_params, one copied with URL(url); each
+   derived object gets a parameter of its own: the base still reads `k=v`, every object reads what was put into it -/
+example :
+    let s := Store.run [.fresh [([107], some [118])], .derive .navigate 0, .derive .fromParts 0, .derive .urlCopy 1,
+                        .qadd 1 ([110], none), .qadd 2 ([112], some []), .qadd 3 ([99], some [49])]
+    s.query 0 = [([107], some [118])] ∧ s.query 1 = [([107], some [118]), ([110], none)] ∧
+    s.query 2 = [([107], some [118]), ([112], some [])] ∧ s.query 3 = [([107], some [118]), ([99], some [49])] := by
+  decide +kernel
 
 end C06
